@@ -176,7 +176,7 @@ def rule_stop(m, rep):
     T = Terms(b)
     sends = m.sends(b, T)
     rep.sites(len(sends))
-    pills = [(bi, kind) for bi, kind, pay in sends if pay[0] == 'adt' and pay[2] == 'None']
+    pills = [(bi, kind) for bi, kind, pay in sends if pay[0] == 'adt' and pay[2] == m.v_marker]
     blocking = [(bi, kind) for bi, kind in pills if kind != 'try_send']
     rep.ob('R1', 'stop/never-blocks', not blocking, b.where(blocking[0][0]) if blocking else b.where(),
            'the stop marker is sent with try_send' if not blocking else 'stop() uses blocking `%s`: dropping a handle can block' % blocking[0][1])
@@ -260,7 +260,7 @@ def rule_run_exit(m, rep, flagname, only=None):
         inner = proj_root(y)
         if inner == lm.dterm and y != lm.dterm:
             for s, labs in edges.items():
-                if ('variant', 'None') in labs:
+                if ('variant', m.v_marker) in labs:
                     none_targets.append(s)
     okm = bool(none_targets)
     for s in none_targets:
@@ -633,6 +633,32 @@ def rule_panic_propagates(m, rep, rid='R1'):
         bad = swallowed(rb, tcs)
         rep.ob(rid, 'panic-reaches-sentinel/run', not bad, rb.where(bad[0][0]) if bad else rb.where(tcs[0]),
                'a panic of the task unwinds out of run()' if not bad else 'run() swallows a panic of the task (%s)' % bad[0][1])
+
+
+def rule_task_own_panics(m, rep, rid='R3'):
+    """Only the wrapped sink (and a user handler) may panic inside the task: a panic site of the task's own - an
+    `unwrap()` of a lock that an earlier panic poisoned, an index, an arithmetic assert - would make every metric after
+    the first panic fail before it reaches the wrapped sink."""
+    from .c20 import PANIC_CALLS, NOT_PANIC
+    tb = inl(m.cad, m.task_closure)
+    bad = []
+    for bi, blk in enumerate(tb.blocks):
+        if blk['cleanup'] or blk.get('dead'):
+            continue
+        t = blk['term']
+        if t['k'] == 'assert' and not t['msg'].startswith(('Misaligned', 'NullPointer')):
+            bad.append((bi, 'assert:' + t['msg']))
+        elif t['k'] == 'call':
+            k = strip_generics(t.get('callee_full', ''))
+            if any(k == n_ or k.endswith(n_) for n_ in NOT_PANIC):
+                continue
+            if any(k == n_ or k.endswith(n_) for n_ in PANIC_CALLS):
+                bad.append((bi, 'call:' + k))
+    rep.sites(len(tb.blocks))
+    rep.ob(rid, 'task-has-no-panic-site-of-its-own', not bad, tb.where(bad[0][0]) if bad else tb.where(),
+           'inside the task only the wrapped sink / the user handler can panic' if not bad else
+           'the task itself can panic at %s: once a panic of the wrapped sink has poisoned/invalidated that state, every later metric '
+           'is consumed by a new panic instead of being delivered' % [x[1] for x in bad][:2])
 
 
 def rule_panics_getter(m, rep, rid='R4'):
